@@ -145,7 +145,7 @@ def gen_knots(rng, n=None):
     return out
 
 
-K_SHAPES = ['random', 'rising', 'falling', 'flat_pair', 'bounds', 'sawtooth', 'gentle']
+K_SHAPES = ['random', 'rising', 'falling', 'flat_pair', 'bounds', 'sawtooth', 'gentle', 'spiky']
 
 
 def gen_conductivities(rng, n, shape):
@@ -165,6 +165,10 @@ def gen_conductivities(rng, n, shape):
         k = [rng.choice([lo, hi]) for _ in range(n)]
         if len(set(k)) == 1:
             k[-1] = hi if k[0] == lo else lo
+    elif shape == 'spiky':
+        # factors of 1e4-1e6 between neighbours (with knots a millimetre apart, see gen_case: narrow peaks that an
+        # integrator which is not told where the knots are steps over)
+        k = [loguniform(rng, 1e-3, 5e-2) if i % 2 else loguniform(rng, 1e2, 2e3) for i in range(n)]
     elif shape == 'sawtooth':
         k = [loguniform(rng, 1e-3, 1e-1) if i % 2 else loguniform(rng, 1e1, 1e4) for i in range(n)]
     else:  # gentle: factors close to 1 (but not closer than 1.5 %)
